@@ -954,6 +954,14 @@ func (c *EvalCtx) call(v *ECall) TV {
 			return tvTerm(ival(t))
 		}
 		return tvTerm(t)
+	case "allocated":
+		// allocated(p): p is nil or an object that exists in the state the clause is evaluated in (for old(): at entry)
+		need(1)
+		t := c.termOf(c.eval(v.Args[0]))
+		if t.Sort == SIface {
+			t = ival(t)
+		}
+		return tvTerm(Or(Eq(t, IntLit(0)), Select(c.state().alloc, t)))
 	case "deref":
 		// deref(p): the struct value p points to, in the state the expression is evaluated in
 		need(1)
